@@ -114,9 +114,66 @@ def perm_catalogue(vseed, tier):
         for variant in range(1 if tier == "quick" else 2):
             cols = _cols_for(n, ncols, variant)
             mat = generic(vseed, len(rows), ncols, "p%d.%d" % (ri, variant))
-            out.append(("perm_r%s_c%s" % ("".join(map(str, rows)), "".join(map(str, cols))), "permanent", mat, rows, cols))
+            out.append(("perm_r%s_c%s_v%d" % ("".join(map(str, rows)), "".join(map(str, cols)), variant), "permanent", mat, rows, cols))
             colsl = _cols_for(n + 1, ncols, variant)
-            out.append(("lap_r%s_c%s" % ("".join(map(str, rows)), "".join(map(str, colsl))), "permanent_laplace", mat, rows, colsl))
+            out.append(("lap_r%s_c%s_v%d" % ("".join(map(str, rows)), "".join(map(str, colsl)), variant), "permanent_laplace", mat, rows, colsl))
+    if len({c[0] for c in out}) != len(out):
+        raise HarnessError("catalogue names are not unique")
+    return out
+
+
+_FAMILY = {}
+
+
+def idx_family(maxk=64, maxmult=28):
+    """{k: rows} -- for every k <= maxk that can be written as a product of factors <= maxmult + 1 a row multiplicity
+    vector (multiplicities <= maxmult, smallest total) whose Gray-code range has exactly k indices, so that the job count
+    k = idx_max is reached (with 4*hw >= k every job is a single index).  Not reachable: k with a prime factor
+    > maxmult + 1 (31, 37, 41, 43, 47, 53, 59, 61, 62): they need a row multiplicity >= 30, where the kernel's ``int``
+    binomial arithmetic (binomial_coeff * prev_value) leaves the int range -- a C04 matter, kept out of this catalogue."""
+    import itertools
+
+    key = (maxk, maxmult)
+    if key not in _FAMILY:
+        best = {}
+        for L in range(1, 6):
+            for rows in itertools.combinations_with_replacement(range(maxmult, 0, -1), L):
+                k = idx_max(rows)
+                if 1 <= k <= maxk and (k not in best or (sum(rows), len(rows)) < (sum(best[k]), len(best[k]))):
+                    best[k] = rows
+        _FAMILY[key] = best
+    return _FAMILY[key]
+
+
+def family_catalogue(vseed):
+    """[(name, kernel, mat, rows, cols)] for the idx_max family (the permanent and the Laplace variant)."""
+    out = []
+    for k, rows in sorted(idx_family().items()):
+        n = sum(rows)
+        ncols = max(1, min(len(rows), 2))
+        mat = generic(vseed, len(rows), ncols, "f%d" % k)
+        cols = _cols_for(n, ncols, 0)
+        out.append(("fam%d_perm_r%s" % (k, "_".join(map(str, rows))), "permanent", mat, rows, cols))
+        colsl = _cols_for(n + 1, ncols, 0)
+        out.append(("fam%d_lap_r%s" % (k, "_".join(map(str, rows))), "permanent_laplace", mat, rows, colsl))
+    return out
+
+
+def family_schedules(rows, tier):
+    """The family is about the job count k = idx_max (quick: only that one; thorough: also the smaller multiples of 4),
+    with a few team sizes and orders."""
+    im = idx_max(rows)
+    jobs_hw = {im: (im + 3) // 4 if im > 1 else 1}
+    if tier != "quick":
+        for hw in range(1, 17):
+            if 4 * hw < im:
+                jobs_hw.setdefault(4 * hw, hw)
+    out = []
+    for jobs, hw in sorted(jobs_hw.items()):
+        teams = sorted({1, 2, 3, max(1, jobs // 2), max(1, jobs - 1), jobs} & set(range(1, jobs + 1)))
+        for team in teams:
+            for order in team_orders(team, 4)[: (6 if tier != "quick" else 3)]:
+                out.append((hw, team, order))
     return out
 
 
